@@ -11,6 +11,7 @@ import (
 	"path/filepath"
 	"runtime"
 	"sort"
+	"strings"
 	"time"
 
 	"github.com/tidwall/geojson/verifsim"
@@ -54,6 +55,9 @@ type WorkerReport struct {
 	HashFile       string            `json:"hash_file"`
 	NextRun        int               `json:"next_run"`
 	Poisoned       bool              `json:"poisoned"`
+	Audits         int               `json:"history_audits"`
+	ShapeSteps     map[string]int64  `json:"shape_steps"`
+	ShapeWallMs    map[string]int64  `json:"shape_wall_ms"`
 }
 
 func newReport() *WorkerReport {
@@ -61,6 +65,7 @@ func newReport() *WorkerReport {
 		Faults: map[string]int{}, Strategies: map[string]int{}, Methods: map[string]int{},
 		Kinds: map[string]int{}, Triples: map[string]int{}, TaskHist: map[string]int{},
 		ViolationKeys: map[string]int{}, Race: raceEnabled, GoVersion: runtime.Version(),
+		ShapeSteps: map[string]int64{}, ShapeWallMs: map[string]int64{},
 	}
 }
 
@@ -178,6 +183,7 @@ func cmdBatch(args []string) int {
 	wdog := fs.Float64("watchdog", 25, "seconds without progress before giving up")
 	maxViol := fs.Int("maxviol", 12, "violating runs to record")
 	tag := fs.String("tag", "", "suffix of the output file names (default: worker index)")
+	auditEvery := fs.Int("audit", 20, "repeat the reference pass of every n-th run in a fresh process (0 = never)")
 	_ = fs.Parse(args)
 
 	if *tag == "" {
@@ -203,11 +209,29 @@ func cmdBatch(args []string) int {
 		}
 		setCurRun(run)
 		progressBump()
+		t0 := time.Now()
 		spec, rng, fset := genSpec(*seed, *worker, run, *tier)
 		spec.Free = *free
 		rr := runSpec(spec, func(solo int64) { finalizeSchedule(spec, rng, fset, solo) }, rl)
 		progressBump()
+		if *auditEvery > 0 && run%*auditEvery == 0 && len(rr.Violations) == 0 && !spec.Free {
+			if vs, err := auditHistory(spec, rr, *nsites, *out); err != nil {
+				rep.Infra = append(rep.Infra, err.Error())
+			} else {
+				rr.Violations = append(rr.Violations, vs...)
+				rep.Audits++
+			}
+			progressBump()
+		}
 		rep.add(spec, rr.Stat)
+		shape := spec.Strategy
+		if k := strings.Index(shape, "+"); k > 0 {
+			shape = shape[:k]
+		} else {
+			shape = "plain"
+		}
+		rep.ShapeSteps[shape] += rr.Stat.Steps + rr.Stat.SoloSteps
+		rep.ShapeWallMs[shape] += time.Since(t0).Milliseconds()
 		if rr.Stat.Nontrivial {
 			hashes[rr.Stat.CaseHash] = struct{}{}
 		}
@@ -342,6 +366,14 @@ func cmdReplay(args []string) int {
 		out.Steps, out.Switches, out.Stray = rr.Stat.Steps, rr.Stat.Switches, rr.Stat.Stray
 		out.Consumed = rr.Stat.Consumed
 		out.Attempts = k + 1
+		if len(rr.Violations) == 0 && !spec.Free {
+			tmp := os.TempDir()
+			if vs, err := auditHistory(spec, rr, *nsites, tmp); err == nil {
+				rr.Violations = append(rr.Violations, vs...)
+			} else {
+				out.Infra = append(out.Infra, err.Error())
+			}
+		}
 		out.Infra = append(out.Infra, rr.Infra...)
 		for _, v := range rr.Violations {
 			if v.Class == "harness-race" {
@@ -396,6 +428,8 @@ func main() {
 		rc = cmdTrace(os.Args[2:])
 	case "minimise":
 		rc = cmdMinimise(os.Args[2:])
+	case "audit":
+		rc = cmdAudit(os.Args[2:])
 	default:
 		fmt.Fprintln(os.Stderr, "unknown subcommand", os.Args[1])
 		rc = 2
